@@ -178,7 +178,7 @@ func check(args []string) {
 					defer wg.Done()
 					sem <- struct{}{}
 					defer func() { <-sem }()
-					v := vc.RunQuery(script, scratch, fmt.Sprintf("retry%s%04d", sanitize(rep.Key)[len(sanitize(rep.Key))-8:], i), timeout*3, vc.Solvers)
+					v := vc.RunQuery(script, scratch, fmt.Sprintf("retry%s%04d", sanitize(rep.Key)[len(sanitize(rep.Key))-8:], i), timeout*3, vc.SolversWide)
 					res[i].V = v
 					res[i].OK = v.Status == res[i].O.Expect
 				}()
